@@ -160,6 +160,15 @@ func streamSuite(r *Run, prop string) {
 				if got == "eof" && h.returnErr != "nil" {
 					r.Violate(transport+"/stream/success-despite-error", "the client reports success only if the handler returned nil", sprintf("handler returned %s, client saw io.EOF", h.returnErr), desc, line)
 				}
+				// asked again, the client still reports the handler's outcome: never a clean end of stream after a failure
+				if h.returnErr != "nil" && got != "eof" && finals[0].step > h.returnStep {
+					for _, f := range finals[1:] {
+						if codeClass(f.res) == "eof" && (!cancelled || f.doneStep < h.cancelStep) {
+							r.Violate(transport+"/stream/success-after-reported-error", "the outcome reported to the client equals the status the server handler returned (a failed call is never reported as a clean end of stream, however often the client asks)", sprintf("handler returned %s; RecvMsg reported %s, and a later RecvMsg reported io.EOF", h.returnErr, finals[0].res), desc, line)
+							break
+						}
+					}
+				}
 			}
 		case "C03":
 			// header/trailer ids the handler committed
@@ -243,6 +252,14 @@ func streamSuite(r *Run, prop string) {
 				for _, o := range h.byActorOp("cr", "recv") {
 					if o.doneStep >= h.cancelStep && o.res != "" && o.res != want {
 						// a receive that completed at the very step of the cancel may have raced and won with the real result
+						singleKind := kind == "cstream" || kind == "unarystream"
+						if singleKind && strings.HasPrefix(o.res, "msg:") && !(h.returnStep >= 0 && h.returnStep < h.cancelStep) {
+							// on a single-response method the message alone is not the complete real result: the call's outcome is
+							// only known once the handler has returned, and it had not when the context ended
+							r.Violate(transport+"/stream/partial-success-after-cancel", "when cancellation races with completion the caller gets either the complete real result or the cancellation status, never a mixture of the two (never a success with missing data)",
+								sprintf("single-response RecvMsg pending at %s returned the message with a nil error although the handler had not returned (its trailers and final status never reached the caller)", h.cancelKind), desc, line)
+							continue
+						}
 						if o.doneStep == h.cancelStep && o.step < h.cancelStep {
 							continue
 						}
@@ -327,6 +344,10 @@ func streamSuite(r *Run, prop string) {
 						r.Violate(transport+"/stream/send-after-finish", "after the handler has finished, sends return nil or io.EOF", sprintf("SendMsg after the handler returned: %s", o.res), desc, line)
 					}
 				}
+				// receives drain what was delivered — each message once, in order — and then yield the final status
+				if len(cGot) > len(hAtt) || !isPrefix(cGot, hAtt) {
+					r.Violate(transport+"/stream/receive-does-not-drain", "receives drain what was delivered and then yield the final status", sprintf("client received %s from a handler that sent %s: a message was handed out again, the stream never reaches its end", intsStr(cGot), intsStr(hAtt)), desc, line)
+				}
 				// the final status is idempotent
 				if len(finals) >= 2 && finals[0].step > h.returnStep {
 					for _, f := range finals[1:] {
@@ -352,6 +373,18 @@ func streamSuite(r *Run, prop string) {
 				}
 				if okRecv > 1 {
 					r.Violate(transport+"/stream/single-response-violated", "exactly one response message", sprintf("%d receives succeeded", okRecv), desc, line)
+				}
+			}
+			// success is only ever reported once the handler's outcome is in: it returned nil having sent exactly one response
+			retStep, retErr := -1, "" // the handler's return, whether scripted or part of the closing drain
+			for _, o := range h.byActorOp("h", "return") {
+				retStep, retErr = o.step, o.herr
+			}
+			for _, o := range h.byActorOp("cr", "recv") {
+				if (kind == "cstream" || kind == "unarystream") && strings.HasPrefix(o.res, "msg:") && o.doneStep >= 0 && !(retStep >= 0 && retStep <= o.doneStep && retErr == "nil" && len(hOK) == 1) {
+					r.Violate(transport+"/stream/single-response-success-before-outcome", "the caller obtains exactly one response message together with success, or a non-OK status (a handler that goes on to produce a second response or a failure is never reported as success)",
+						sprintf("RecvMsg returned %s with a nil error although the handler had not (yet) returned nil after exactly one response (handler outcome: %q, responses attempted: %s)", o.res, retErr, intsStr(hAtt)), desc, line)
+					break
 				}
 			}
 		}
